@@ -1,4 +1,64 @@
-(* Corr/C08.v — case runner for C08 (shares the wire-level case functions). *)
-From Dns Require Import Base.Bytes Corr.Wire.
+(* Corr/C08.v — case runner for C08 (shares the wire-level case functions), plus
+   the value-level cases of Model/OptVal.v: an EDNS0 option / SVCB parameter
+   value as Go struct fields -> what pack() returns and the length Len adds. *)
+From Dns Require Import Base.Bytes Corr.Wire Model.OptVal.
+Open Scope N_scope.
+
+(* list elements are written x<hex> so that an empty element differs from an empty list *)
+Definition parse_xlist (s : string) : list bytes := map (fun e => unhex (tl_str e)) (split_list "," s).
+Definition parse_optval (s : string) : option optval :=
+  let p := split_on ":" s in
+  let k := arg p 0 in
+  let a i := arg p i in
+  let n i := undec (arg p i) in
+  let h i := unhex (arg p i) in
+  if String.eqb k "LLQ" then Some (O_LLQ (n 1%nat) (n 2%nat) (n 3%nat) (n 4%nat) (n 5%nat))
+  else if String.eqb k "UL" then Some (O_UL (n 1%nat) (n 2%nat))
+  else if String.eqb k "NSID" then Some (O_NSID (h 1%nat))
+  else if String.eqb k "ESU" then Some (O_ESU (h 1%nat))
+  else if String.eqb k "DAU" then Some (O_DAU (h 1%nat))
+  else if String.eqb k "DHU" then Some (O_DHU (h 1%nat))
+  else if String.eqb k "N3U" then Some (O_N3U (h 1%nat))
+  else if String.eqb k "SUBNET" then Some (O_SUBNET (n 1%nat) (n 2%nat) (n 3%nat) (h 4%nat))
+  else if String.eqb k "EXPIRE" then Some (O_EXPIRE (n 1%nat) (String.eqb (a 2%nat) "1"))
+  else if String.eqb k "COOKIE" then Some (O_COOKIE (h 1%nat))
+  else if String.eqb k "KEEPALIVE" then Some (O_KEEPALIVE (n 1%nat))
+  else if String.eqb k "PADDING" then Some (O_PADDING (h 1%nat))
+  else if String.eqb k "EDE" then Some (O_EDE (n 1%nat) (h 2%nat))
+  else if String.eqb k "REPORTING" then Some (O_REPORTING (h 1%nat))
+  else if String.eqb k "ZONEVERSION" then Some (O_ZONEVERSION (n 1%nat) (n 2%nat) (h 3%nat))
+  else if String.eqb k "LOCAL" then Some (O_LOCAL (n 1%nat) (h 2%nat))
+  else None.
+Definition parse_svcbval (s : string) : option svcbval :=
+  let p := split_on ":" s in
+  let k := arg p 0 in
+  let a i := arg p i in
+  let n i := undec (arg p i) in
+  let h i := unhex (arg p i) in
+  if String.eqb k "MANDATORY" then Some (S_MANDATORY (map undec (split_list "," (a 1%nat))))
+  else if String.eqb k "ALPN" then Some (S_ALPN (parse_xlist (a 1%nat)))
+  else if String.eqb k "NODEFAULTALPN" then Some S_NODEFAULTALPN
+  else if String.eqb k "PORT" then Some (S_PORT (n 1%nat))
+  else if String.eqb k "IPV4HINT" then Some (S_IPV4HINT (parse_xlist (a 1%nat)))
+  else if String.eqb k "ECH" then Some (S_ECH (h 1%nat))
+  else if String.eqb k "IPV6HINT" then Some (S_IPV6HINT (parse_xlist (a 1%nat)))
+  else if String.eqb k "DOHPATH" then Some (S_DOHPATH (h 1%nat))
+  else if String.eqb k "OHTTP" then Some S_OHTTP
+  else if String.eqb k "SLOCAL" then Some (S_LOCAL (n 1%nat) (h 2%nat))
+  else None.
+
+Definition c_optval (s : string) : string :=
+  match parse_optval s with
+  | Some v => (show_res hex (opt_pack v) +++ ";" +++ dec (opt_len v))%string
+  | None => "bad-optval"%string
+  end.
+Definition c_svcbval (s : string) : string :=
+  match parse_svcbval s with
+  | Some v => (show_res hex (svcb_pack v) +++ ";" +++ dec (svcb_len v))%string
+  | None => "bad-svcbval"%string
+  end.
+
 Definition run (fn : string) (args : list string) : string :=
-  match run_wire fn args with Some s => s | None => "unknown-fn"%string end.
+  if String.eqb fn "optval" then c_optval (arg args 0)
+  else if String.eqb fn "svcbval" then c_svcbval (arg args 0)
+  else match run_wire fn args with Some s => s | None => "unknown-fn"%string end.
